@@ -1,0 +1,23 @@
+//go:build verif
+// +build verif
+
+package ige
+
+import "math/big"
+
+// Verification hooks (build tag verif): exported wrappers of the package-private cipher functions.
+
+func VerifIGEEncrypt(data, out, key, iv []byte) error { return doAES256IGEencrypt(data, out, key, iv) }
+func VerifIGEDecrypt(data, out, key, iv []byte) error { return doAES256IGEdecrypt(data, out, key, iv) }
+
+func VerifGenerateTempKeys(nonceSecond, nonceServer *big.Int) (key, iv []byte) {
+	return generateTempKeys(nonceSecond, nonceServer)
+}
+
+func VerifGenerateAESIGE(msgKey, authKey []byte, decode bool) (key, iv []byte) {
+	return generateAESIGE(msgKey, authKey, decode)
+}
+
+func VerifEncryptWithTempKeysNoPad(msg []byte, nonceSecond, nonceServer *big.Int) []byte {
+	return encryptMessageWithTempKeys(msg, nonceSecond, nonceServer)
+}
